@@ -166,7 +166,7 @@ def main():
                 "name": "pbt",
                 "path": "run.py",
                 "serves_properties": [c["property_id"] for c in checks],
-                "kind_free_text": "Hypothesis 6.168 property-based / model-based stateful testing with bounded exhaustive enumeration tiers; JSON cases, replay bypasses Hypothesis",
+                "kind_free_text": "Hypothesis 6.168 property-based / model-based stateful testing with bounded exhaustive enumeration tiers (C06, C08, C09) and, in the thorough tier, an atheris/libFuzzer coverage-guided campaign that drives the same strategies and oracles through hypothesis.fuzz_one_input; JSON cases, replay bypasses Hypothesis; committed regression cases under replays/<id>/regression_*.json are replayed by every run",
             }
         ],
         "checks": checks,
